@@ -1,6 +1,7 @@
 package props
 
 import (
+	"errors"
 	"fmt"
 	"go/format"
 	"math/rand"
@@ -39,6 +40,8 @@ type c10 struct {
 	ncase      int
 	roProbed   bool
 	roWritable bool // a directory chmod-ed to 0555 is still writable for this process (root)
+	wfProbed   bool
+	wfOK       map[string]bool // write-failing target kind -> the device behaves as needed here
 }
 
 func init() { Register(&c10{}) }
@@ -132,13 +135,90 @@ var c10Targets = []struct{ Kind, Sym string }{
 	{"parentfile", "existing.go/out.go"}, // a path component is a regular file
 }
 
+// Save targets that can be OPENED for writing but whose WRITE fails (stream save-write-fails):
+// the error does not come from os.OpenFile but from the write itself, after the target has
+// been opened (and, for a regular file, truncated).  Three devices with three different
+// errors; every one is probed in Generate (c10.writeFailKinds) and left out where it does not
+// exist or does not behave like this.  Except for the -direct kind the path given to Save is
+// a symbolic link inside the case's private directory, so that the snapshot comparison sees
+// the neighbourhood of the target.
+var c10WriteFailTargets = []struct{ Kind, Sym, Device, Errno string }{
+	{"wfull", "full.go", "/dev/full", "ENOSPC"},              // no space left on device
+	{"wfull-direct", "dev-full", "/dev/full", "ENOSPC"},      // the same, Save("/dev/full") itself
+	{"wmem", "mem.go", "/proc/self/mem", "EIO"},              // address 0 is not mapped: input/output error
+	{"wrefs", "refs.go", "/proc/self/clear_refs", "EINVAL"}, // accepts the digits 1..5 only: invalid argument
+}
+
 func c10TargetKind(sym string) string {
 	for _, t := range c10Targets {
 		if t.Sym == sym {
 			return t.Kind
 		}
 	}
+	for _, t := range c10WriteFailTargets {
+		if t.Sym == sym {
+			return t.Kind
+		}
+	}
 	return ""
+}
+
+func c10TargetSym(kind string) string {
+	for _, t := range c10Targets {
+		if t.Kind == kind {
+			return t.Sym
+		}
+	}
+	for _, t := range c10WriteFailTargets {
+		if t.Kind == kind {
+			return t.Sym
+		}
+	}
+	panic("C10: unknown target kind " + kind)
+}
+
+func c10WriteFailDevice(kind string) string {
+	for _, t := range c10WriteFailTargets {
+		if t.Kind == kind {
+			return t.Device
+		}
+	}
+	return ""
+}
+
+// c10ProbeWriteFail: os.WriteFile to the device opens it and fails in the write (an
+// *os.PathError whose Op is "write").  The probe text is no input any of the devices accepts.
+func c10ProbeWriteFail(device string) bool {
+	err := os.WriteFile(device, []byte("// verif probe\n"), 0644)
+	var pe *os.PathError
+	return err != nil && errors.As(err, &pe) && pe.Op == "write"
+}
+
+// writeFailKinds: the write-failing target kinds usable in this environment.
+func (p *c10) writeFailKinds() []string {
+	if !p.wfProbed {
+		p.wfProbed = true
+		p.wfOK = map[string]bool{}
+		dev := map[string]bool{}
+		for _, t := range c10WriteFailTargets {
+			ok, seen := dev[t.Device]
+			if !seen {
+				ok = c10ProbeWriteFail(t.Device)
+				dev[t.Device] = ok
+				if !ok {
+					fmt.Fprintf(os.Stderr, "C10: %s cannot be opened for writing with a failing write here: no save target of that kind\n", t.Device)
+				}
+			}
+			p.wfOK[t.Kind] = ok
+		}
+	}
+	var out []string
+	for _, t := range c10WriteFailTargets {
+		if p.wfOK[t.Kind] {
+			out = append(out, t.Kind)
+		}
+	}
+	return out
 }
 
 var c10OldTime = time.Date(2001, 2, 3, 4, 5, 6, 0, time.UTC)
@@ -225,6 +305,8 @@ func (p *c10) fixtures(kind string, info *c10info) {
 	case "isdir":
 		must(os.Mkdir(filepath.Join(dir, "dir"), 0755))
 		old(filepath.Join("dir", "keep.txt"), "inside the directory that is the target\n")
+	case "wfull", "wmem", "wrefs":
+		must(os.Symlink(c10WriteFailDevice(kind), filepath.Join(dir, c10TargetSym(kind))))
 	}
 	info.dir = dir
 	info.roWritable = p.roWritable
@@ -238,6 +320,8 @@ func (p *c10) fixtures(kind string, info *c10info) {
 func c10FsFails(kind string, roWritable bool) bool {
 	switch kind {
 	case "missingdir", "isdir", "parentfile":
+		return true
+	case "wfull", "wfull-direct", "wmem", "wrefs": // (only generated where the probe succeeded)
 		return true
 	case "rodir":
 		return !roWritable
@@ -436,16 +520,15 @@ func (p *c10) build(r *rand.Rand, s c10spec, stream string) *Case {
 		h = append(h, hist.Op{Kind: "render", F: 0, Flag: s.wfault})
 	case "save":
 		p.fixtures(s.target, info)
-		var sym string
-		for _, t := range c10Targets {
-			if t.Kind == s.target {
-				sym = t.Sym
-			}
-		}
+		sym := c10TargetSym(s.target)
 		fails := c10FsFails(s.target, p.roWritable)
 		h = append(h, hist.Op{Kind: "save", F: 0, A: sym, Flag: fails})
 		dir := info.dir
 		meta["savepath"] = func(sym string) string { return filepath.Join(dir, filepath.FromSlash(sym)) }
+		if s.target == "wfull-direct" {
+			dev := c10WriteFailDevice(s.target)
+			meta["savepath"] = func(string) string { return dev }
+		}
 		tk := s.target
 		if tk == "rodir" && p.roWritable {
 			tk = "rodir-writable-for-this-user" // root: the chmod does not bite; a plain success target
@@ -546,7 +629,56 @@ func (p *c10) Generate(r *rand.Rand, t string) []*Case {
 			}
 		}
 	}
+	out = append(out, p.saveWriteFails(r, t)...)
 	return out
+}
+
+// ---- stream save-write-fails: the target opens, the write fails ----
+
+// saveWriteFails: File.Save onto the targets of c10WriteFailTargets, every tree kind x NoFormat
+// x target kind (reps times), and random / damaged trees.  The model's Save with the
+// file-system fault flag set is exactly this situation (rendering and formatting happen
+// first; a tree that does not render or format fails for that reason and the target is never
+// opened).  One case in three renders the File afterwards (then=render): a failed Save leaves
+// the File as it was.  NonTrivial as in build: the case holds a failure cause by
+// construction - here always the target.
+func (p *c10) saveWriteFails(r *rand.Rand, t string) []*Case {
+	kinds := p.writeFailKinds()
+	var out []*Case
+	one := func(s c10spec) {
+		c := p.build(r, s, "save-write-fails")
+		c.Tags = append(c.Tags, "open-succeeds-write-fails", "errno="+c10WriteFailErrno(s.target))
+		if r.Intn(3) == 0 {
+			c.Hist = append(c.Hist, hist.Op{Kind: "render", F: 0})
+			c.Tags = append(c.Tags, "then=render")
+		}
+		out = append(out, c)
+	}
+	reps := tier(t, 6, 300)
+	for rep := 0; rep < reps; rep++ {
+		for _, tree := range []string{"valid", "valid", "invalid", "badlit"} {
+			for _, nf := range []bool{false, true} {
+				for _, k := range kinds {
+					one(c10spec{tree: tree, entry: "save", nf: nf, target: k, warmup: tree != "badlit" && r.Intn(4) == 0})
+				}
+			}
+		}
+	}
+	if len(kinds) > 0 {
+		for i := tier(t, 60, 6000); i > 0; i-- {
+			one(c10spec{tree: pick(r, []string{"random", "damaged"}), entry: "save", nf: r.Intn(2) == 0, target: pick(r, kinds), warmup: r.Intn(6) == 0})
+		}
+	}
+	return out
+}
+
+func c10WriteFailErrno(kind string) string {
+	for _, t := range c10WriteFailTargets {
+		if t.Kind == kind {
+			return t.Errno
+		}
+	}
+	return ""
 }
 
 // ---- stream after-failed-render: what a failed call leaves behind ----
@@ -1122,7 +1254,8 @@ func c10Judge(h hist.History, info *c10info, got []hist.Obs) string {
 				if !mustFail {
 					return what + "Save returned a file-system error for a writable target (" + kind + ")"
 				}
-				// for these target kinds the open itself fails: nothing may have changed
+				// for these target kinds the open itself fails, or the target is a device reached
+				// through a symbolic link: nothing in the directory may have changed
 				if d := unchanged("the target cannot be written (" + kind + ")"); d != "" {
 					return d
 				}
@@ -1147,6 +1280,9 @@ func c10Judge(h hist.History, info *c10info, got []hist.Obs) string {
 			}
 
 		default: // bad: World.guard / World.save could not classify the error
+			if isSave && c10FsFails(c10TargetKind(op.A), info.roWritable) && strings.HasPrefix(o.Msg, "saved file unreadable") {
+				return what + "the file system's error was swallowed: Save returned nil although the target (" + c10TargetKind(op.A) + ") cannot be written (" + o.Msg + ")"
+			}
 			return what + "error of an unexpected class (neither the writer's own error, nor a format error, nor an *os.PathError; or nil without a readable file): " + o.Msg
 		}
 	}
